@@ -18,7 +18,7 @@ from ..alg import AlgError, Context, Rat, _pdiv_exact
 from ..extract import Extractor, Closure, Opaque, PathRaises, ReturnValue, _dotted
 from ..model import Program, walk_own
 from ..report import AnalysisError
-from ..model import key_in, canon as K
+from ..model import key_in, canon as K, inline_temporaries
 
 EQ = "hypnotoad/core/equilibrium.py"
 POLY = "hypnotoad/utils/polygons.py"
@@ -350,7 +350,7 @@ def area_rules(prog, rep, R="R5"):
     ok = False
     if ret and isinstance(ret[0].value, ast.Compare) and len(ret[0].value.ops) == 1 and isinstance(ret[0].value.ops[0], ast.Gt):
         c = ret[0].value
-        ok = mod.code(c.left) == "area(polygon)" and isinstance(c.comparators[0], ast.Constant) and c.comparators[0].value == 0
+        ok = mod.code(inline_temporaries(fc.node, c.left, inline_calls=True)) == "area(polygon)" and isinstance(c.comparators[0], ast.Constant) and c.comparators[0].value == 0
     rep.ob(R, "clockwise(polygon) == (area(polygon) > 0)", ok, fc.site(), "", key="clockwise/def")
 
 
@@ -366,15 +366,26 @@ def _closed_pairing(mod, fa):
     def is_n(node):
         return (isinstance(node, ast.Name) and node.id in lens) or mod.code(node) in ("len(%s)" % poly, "%s.shape[0]" % poly)
     for loop in ast.walk(fa.node):
-        if not (isinstance(loop, ast.For) and isinstance(loop.target, ast.Name) and isinstance(loop.iter, ast.Call) and mod.code(loop.iter.func) == "range"):
+        if not (isinstance(loop, ast.For) and isinstance(loop.iter, ast.Call) and mod.code(loop.iter.func) in ("range", "enumerate")):
             continue
-        if not (len(loop.iter.args) == 1 and is_n(loop.iter.args[0])):
-            return False, "loop runs over %s, not over all vertices" % mod.code(loop.iter)
-        i = loop.target.id
         subs = [mod.code(x.slice) for x in ast.walk(loop) if isinstance(x, ast.Subscript) and isinstance(x.value, ast.Name) and x.value.id == poly]
+        if mod.code(loop.iter.func) == "range":
+            if not isinstance(loop.target, ast.Name):
+                continue
+            if not (len(loop.iter.args) == 1 and is_n(loop.iter.args[0])):
+                return False, "loop runs over %s, not over all vertices" % mod.code(loop.iter)
+            i = loop.target.id
+            current = any(i == a for a in subs)
+        else:
+            # for i, vertex in enumerate(polygon): the current vertex is the loop's own element
+            if not (len(loop.iter.args) == 1 and mod.code(loop.iter.args[0]) == poly and isinstance(loop.target, ast.Tuple) and len(loop.target.elts) == 2
+                    and isinstance(loop.target.elts[0], ast.Name)):
+                return False, "loop runs over %s, not over all vertices" % mod.code(loop.iter)
+            i = loop.target.elts[0].id
+            current = True
         nn = [k for k in lens] + ["len(%s)" % poly]
-        fwd = any(i == a for a in subs) and any(b in ["(%s+1)%%%s" % (i, n) for n in nn] for b in subs)
-        bwd = any(i == a for a in subs) and any(b == "%s-1" % i for b in subs)
+        fwd = current and any(b in ["(%s+1)%%%s" % (i, n) for n in nn] for b in subs)
+        bwd = current and any(b == "%s-1" % i for b in subs)
         return (fwd or bwd), "vertex subscripts %s" % sorted(set(subs))
     return False, "accumulation loop not found"
 
